@@ -203,10 +203,12 @@ impl<T> DataReaderEntity<T> {
             let view_state = instance.view_state;
             let instance_state = instance.instance_state;
 
+            // Generation difference between the most recent sample of the instance and this
+            // sample: the counters stamped on the sample when it was received are the reference
             let absolute_generation_rank = (instance.most_recent_disposed_generation_count
                 + instance.most_recent_no_writers_generation_count)
-                - (instance_from_collection.most_recent_disposed_generation_count
-                    + instance_from_collection.most_recent_no_writers_generation_count);
+                - (cache_change.disposed_generation_count
+                    + cache_change.no_writers_generation_count);
 
             let (data, valid_data) = match cache_change.kind {
                 ChangeKind::Alive | ChangeKind::AliveFiltered => {
